@@ -464,13 +464,23 @@ class HintSane(object, metaclass=_HintSaneMetaclass):
         except TypeError:
             hint_hash = id(hint)
 
+        # Likewise, hash identifying this type parameter lookup table if all
+        # hints this table maps to are hashable *OR* the object identifier of
+        # this table otherwise (e.g., for a user-defined generic erroneously
+        # subscripted by an unhashable object like "MuhGeneric[[int]]", which is
+        # subsequently rejected with a human-readable exception).
+        try:
+            typearg_to_hint_hash = hash(typearg_to_hint)
+        except TypeError:
+            typearg_to_hint_hash = id(typearg_to_hint)
+
         # Hash identifying this object, precomputed for efficiency.
         self._hash = hash((
             hint_hash,
             hint_recursable_to_depth,
             is_check_expr_cacheable,
             is_hint_parent_pep484585_subclass,
-            typearg_to_hint,
+            typearg_to_hint_hash,
         ))
 
     # ..................{ DUNDERS                            }..................
